@@ -145,6 +145,10 @@ def run(ctx):
         "the auth-rule conjunct of make_join / make_leave and the federation-response checks use a compact oracle for a "
         "user's own join / leave (DESIGN.md 5.1 A1, A5, A7, A14 included); join rules a room version does not know are not generated",
         "user IDs serve as sender IDs (no pseudo-ID rooms; HandleInviteV3 is not exercised)",
+        "invite: a room the local server does not know has no membership for the invited user; the stripped state is taken "
+        "from a state querier that knows the room's create / join-rules events",
+        "a UserIDForSender answer of (nil, nil) is a legal querier answer (the library itself tests for it elsewhere): the "
+        "handlers must refuse, not panic",
         "no clock hook: harness events are dated 2023, keys are valid until now + 48 h (the 'expired' class: until before the "
         "event's timestamp); PerformJoin dates its event with the real clock, more than a day inside the validity",
     ]
@@ -152,7 +156,7 @@ def run(ctx):
     ctx.notes["rule"] = (
         "guard products: every scenario of the Handshake_gen families %s within the cfg bounds (each parameter 2-6 classes, all "
         "combinations per family, room versions %s); end-to-end: every behaviour of Handshake!Spec with at most 2 Forge actions%s; "
-        "trace: those runs (quick: every third) plus seeded random runs (all room versions, <= 4 forgeries). distinct = distinct (handler, verdict, "
+        "trace: those runs (quick: every third; three-forgery runs: every eighth) plus seeded random runs (all room versions, <= 4 forgeries). distinct = distinct (handler, verdict, "
         "failing conjunct set, error class) classes resp. distinct (flow, forgeries, outcome sequence) behaviours"
         % (FAMILIES, "1,10 (restricted: 10,12; send_join trust and invite products: 10)" if quick else "1,2,3,6,7,8,9,10,11,12",
            " in room version 10" if quick else " in room versions 1,6,10,11,12 and with at most 3 in room version 10"))
@@ -168,7 +172,8 @@ def run(ctx):
         total += len(r.records)
         # ... recorded and validated (code -> spec)
         t1 = os.path.join(ctx.scratch, "c15_%s_trace.ndjson" % cfg)
-        ctx.harness("c15e2e", r.records[::3] if quick else r.records, args=["-out", t1], pkg="c15")
+        step = 3 if quick else (8 if cfg == "e2e3" else 1)
+        ctx.harness("c15e2e", r.records[::step], args=["-out", t1], pkg="c15")
         _validate(ctx, t1, "tlc%d" % n)
     ctx.notes["scenarios_replayed"] = total
     # seeded random runs beyond the TLC bounds
